@@ -262,14 +262,17 @@ func checkWire(c *Case, b hotline.AccessBitmap) {
 	if mem.Access != hotline.AccessBitmap(maskDefined(b)) {
 		c.Violation("named-account-load", "account written in named form loads to different privileges")
 	}
-	wc, err := ts.LoginOK("10.1.2.3:4000", "u", "pw", nil)
-	if err != nil {
-		c.Note("err", err.Error())
+	// handshake + login over the real connection handler (generous timeouts: the machine may be heavily loaded)
+	wc := ts.Connect("10.1.2.3:4000", nil)
+	wc.Conn.Feed(clientHandshake)
+	wc.Conn.Feed(encTran(loginTran(1, "u", "pw")))
+	if r, ok := wc.ReplyTo(1, 60*time.Second); !ok || r.ErrorCode != [4]byte{} {
 		c.Disagree("fixture-login", "login failed")
+		wc.Conn.EOF()
 		return
 	}
 	var got []byte
-	ok := waitFor(3*time.Second, func() bool {
+	ok := waitFor(60*time.Second, func() bool {
 		_, trans, _, _ := wc.Received()
 		for _, t := range trans {
 			if binary.BigEndian.Uint16(t.Type[:]) == 354 {
@@ -284,7 +287,7 @@ func checkWire(c *Case, b hotline.AccessBitmap) {
 		return false
 	})
 	wc.Conn.EOF()
-	wc.WaitDone(2 * time.Second)
+	wc.WaitDone(10 * time.Second)
 	c.Note("bitmap", bmHex(b))
 	if !ok {
 		c.Violation("wire-access-missing", "no user-access transaction (354, field 110) was sent at login")
@@ -396,7 +399,7 @@ func init() {
 			}
 			c.Dist("pair")
 		}})
-		x.Add(&Family{Name: "random", Quick: 3000, Thor: 400000, Run: func(c *Case) {
+		x.Add(&Family{Name: "random", Quick: 3000, Thor: 150000, Run: func(c *Case) {
 			b := randBitmap(c.R)
 			checkYamlLevel(c, b)
 			if c.R.Chance(8) {
@@ -404,7 +407,7 @@ func init() {
 			}
 			c.Dist(fmt.Sprintf("random/popcount-%02d", len(bmBits(b))/8*8))
 		}})
-		x.Add(&Family{Name: "documents", Quick: 1500, Thor: 60000, Run: func(c *Case) {
+		x.Add(&Family{Name: "documents", Quick: 1500, Thor: 40000, Run: func(c *Case) {
 			r := c.R
 			if r.Bool() {
 				// named documents with arbitrary subsets of keys, false values, unknown keys and non-bool values
